@@ -47,7 +47,7 @@ def main():
                 slot += 1
     with ThreadPoolExecutor(10) as ex:
         for res in ex.map(one, jobs):
-            print(res[0], res[1], res[2], json.dumps(res[3])[:1500] if res[3] else '')
+            print(res[0], res[1], res[2], json.dumps(res[3])[:6000] if res[3] else '')
 
 
 if __name__ == '__main__':
